@@ -244,7 +244,9 @@ def check(run):
                 for k in range(rng.randrange(1, 4)):
                     src['g%d.bin' % k] = {'k': 'file', 'len': rng.choice([9000, 30000, 70000]), 'fill': k + 3 * i, 'mtime_ns': 0}
                 e2e.build_tree(os.path.join(root, 'src'), src)
-                now = time.time_ns()
+                # ... and sources dated at the edges of the time axis: exactly the epoch (what a 'reset' time stamp would be), 1 ns after it, year 2200
+                now = [time.time_ns(), 0, 1, 7258118400 * 10 ** 9][i % 4]
+                run.count('D:source-time:' + ['now', 'epoch', 'epoch+1ns', 'year-2200'][i % 4])
                 for nm in src:
                     if nm:
                         os.utime(os.path.join(root, 'src', nm), ns=(now, now))
